@@ -1376,6 +1376,12 @@ fn c11(cx: &Ctx, o: &mut Outcome) {
                     }
                 } else {
                     let member = cfg.origins.iter().any(|x| x == org);
+                    // an Origin that equals a configured one only after stripping blanks around it:
+                    // a server may take either view, as long as it grants nothing to anyone else
+                    let raw = rq.raw_header("Origin").unwrap_or(org);
+                    if member && raw != org {
+                        continue;
+                    }
                     if !member {
                         if !acs.is_empty() {
                             o.verdicts.push(v("C11", format!("grant_to_unlisted_origin.{}", origin_relation(org, &cfg.origins)), format!("{} ({}): the Origin is not one of the configured origins but the response carries {:?}", req_txt, cfg_txt, acs.iter().map(|(n, v)| format!("{}: {}", n, v)).collect::<Vec<_>>()), Some(i)));
